@@ -154,6 +154,57 @@ Proof. destruct v; cbn [need]; lia. Qed.
 Lemma write_fields_items fs : forall s, write_fields fs s = write_items (map snd fs) s.
 Proof. induction fs as [|[n x] r IH]; intros s; cbn [write_fields write_items map snd]; [reflexivity|]. destruct (write_data x s); try reflexivity. apply IH. Qed.
 
+(* ---- class definitions ---- *)
+Lemma name_eqb_true a b : name_eqb a b = true -> a = b.
+Proof.
+  revert b. induction a as [|x a IH]; destruct b as [|y b]; cbn; intros H; try discriminate; [reflexivity|].
+  apply andb_true_iff in H. destruct H as [H1 H2]. f_equal; [lia|apply IH; exact H2].
+Qed.
+Lemma nth_z_cons {A} (x : A) r k : 0 < k -> nth_z (x :: r) k = nth_z r (k - 1).
+Proof.
+  intros H. unfold nth_z. cbn [length]. rewrite Nat2Z.inj_succ.
+  destruct (Z.ltb_spec k 0); [lia|]. destruct (Z.ltb_spec (k - 1) 0); [lia|]. cbn [orb].
+  destruct (Z.leb_spec (Z.succ (Z.of_nat (length r))) k); destruct (Z.leb_spec (Z.of_nat (length r)) (k - 1)); try lia; [reflexivity|].
+  replace (Z.to_nat k) with (S (Z.to_nat (k - 1))) by lia. reflexivity.
+Qed.
+Lemma nth_z_0 {A} (x : A) r : nth_z (x :: r) 0 = Some x.
+Proof. unfold nth_z. cbn [length]. rewrite Nat2Z.inj_succ. destruct (Z.leb_spec (Z.succ (Z.of_nat (length r))) 0); [lia|]. reflexivity. Qed.
+Lemma cls_index_spec cls n : forall i j, cls_index cls n i = Some j ->
+  (exists fs, nth_z cls (j - i) = Some (n, fs)) /\ i <= j < i + Z.of_nat (length cls).
+Proof.
+  induction cls as [|[n' fs'] r IH]; intros i j H; cbn [cls_index] in H; [discriminate|].
+  destruct (name_eqb n n') eqn:E.
+  - inversion H; subst j. apply name_eqb_true in E. subst n'. replace (i - i) with 0 by lia. rewrite nth_z_0.
+    split; [eexists; reflexivity|]. cbn [length]. lia.
+  - destruct (IH _ _ H) as [[fs N] B]. split.
+    + exists fs. rewrite nth_z_cons by lia. replace (j - i - 1) with (j - (i + 1)) by lia. exact N.
+    + cbn [length]. lia.
+Qed.
+Lemma cls_def_state st c names :
+  ebytes (write_cls_def st c names) =
+    ebytes st ++ [67] ++ encode_string c ++ gencodeInt (swrap 32 (Z.of_nat (length names))) ++ concat (map encode_string (map lower_name names)) /\
+  ecls (write_cls_def st c names) = ecls st ++ [(c, map lower_name names)] /\
+  erefs (write_cls_def st c names) = erefs st /\ enm (write_cls_def st c names) = enm st.
+Proof.
+  unfold write_cls_def. cbv zeta.
+  set (st3 := emit (emit (emit st [g_objectDefTag]) (encode_string c)) (gencodeInt (swrap 32 (Z.of_nat (length names))))).
+  destruct (fold_emit_tables (map lower_name names) st3) as [T1 T2].
+  cbn [ecls erefs enm]. rewrite T1, T2, fold_emit_enm. split; [|repeat split].
+  transitivity (ebytes (fold_left (fun s f => emit s (encode_string f)) (map lower_name names) st3)); [reflexivity|].
+  rewrite ebytes_fold_emit. unfold st3. rewrite !ebytes_emit, <- !app_assoc. reflexivity.
+Qed.
+Lemma concat_len_ge names : Forall (Forall valid_rune) names -> (length names <= length (concat (map encode_string names)))%nat.
+Proof.
+  induction 1 as [|n ns V _ IH]; cbn [map concat length]; [lia|].
+  destruct (string_denotes n [] V) as (t & tl & E & _). rewrite app_length, E. cbn [length]. lia.
+Qed.
+Lemma lower_name_valid n : Forall valid_rune n -> Forall valid_rune (lower_name n).
+Proof.
+  intros H. unfold lower_name. destruct n as [|c r]; [constructor|]. inversion H as [|? ? Hc Hr]; subst.
+  destruct ((65 <=? c) && (c <=? 90)) eqn:E; [|exact H]. constructor; [|exact Hr]. unfold valid_rune, g_asciiGap. lia.
+Qed.
+
+
 Section Main.
 Variable nm : namemap.
 Variable F : name -> list name.
@@ -354,56 +405,6 @@ Proof.
     exists pst3. split; [exact R3|]. intros f Hf. cbn [need_entries] in Hf. destruct f as [|f]; [lia|].
     rewrite hparse_e_S. rewrite <- !app_assoc. rewrite T1. cbn [app].
     rewrite pe_step_cons by exact T1z. rewrite T1 in V1. cbn [app] in V1. rewrite V1 by lia. cbn [bind]. rewrite V2 by lia. cbn [bind]. rewrite V3 by lia. reflexivity.
-Qed.
-
-(* ---- class definitions ---- *)
-Lemma name_eqb_true a b : name_eqb a b = true -> a = b.
-Proof.
-  revert b. induction a as [|x a IH]; destruct b as [|y b]; cbn; intros H; try discriminate; [reflexivity|].
-  apply andb_true_iff in H. destruct H as [H1 H2]. f_equal; [lia|apply IH; exact H2].
-Qed.
-Lemma nth_z_cons {A} (x : A) r k : 0 < k -> nth_z (x :: r) k = nth_z r (k - 1).
-Proof.
-  intros H. unfold nth_z. cbn [length]. rewrite Nat2Z.inj_succ.
-  destruct (Z.ltb_spec k 0); [lia|]. destruct (Z.ltb_spec (k - 1) 0); [lia|]. cbn [orb].
-  destruct (Z.leb_spec (Z.succ (Z.of_nat (length r))) k); destruct (Z.leb_spec (Z.of_nat (length r)) (k - 1)); try lia; [reflexivity|].
-  replace (Z.to_nat k) with (S (Z.to_nat (k - 1))) by lia. reflexivity.
-Qed.
-Lemma nth_z_0 {A} (x : A) r : nth_z (x :: r) 0 = Some x.
-Proof. unfold nth_z. cbn [length]. rewrite Nat2Z.inj_succ. destruct (Z.leb_spec (Z.succ (Z.of_nat (length r))) 0); [lia|]. reflexivity. Qed.
-Lemma cls_index_spec cls n : forall i j, cls_index cls n i = Some j ->
-  (exists fs, nth_z cls (j - i) = Some (n, fs)) /\ i <= j < i + Z.of_nat (length cls).
-Proof.
-  induction cls as [|[n' fs'] r IH]; intros i j H; cbn [cls_index] in H; [discriminate|].
-  destruct (name_eqb n n') eqn:E.
-  - inversion H; subst j. apply name_eqb_true in E. subst n'. replace (i - i) with 0 by lia. rewrite nth_z_0.
-    split; [eexists; reflexivity|]. cbn [length]. lia.
-  - destruct (IH _ _ H) as [[fs N] B]. split.
-    + exists fs. rewrite nth_z_cons by lia. replace (j - i - 1) with (j - (i + 1)) by lia. exact N.
-    + cbn [length]. lia.
-Qed.
-Lemma cls_def_state st c names :
-  ebytes (write_cls_def st c names) =
-    ebytes st ++ [67] ++ encode_string c ++ gencodeInt (swrap 32 (Z.of_nat (length names))) ++ concat (map encode_string (map lower_name names)) /\
-  ecls (write_cls_def st c names) = ecls st ++ [(c, map lower_name names)] /\
-  erefs (write_cls_def st c names) = erefs st /\ enm (write_cls_def st c names) = enm st.
-Proof.
-  unfold write_cls_def. cbv zeta.
-  set (st3 := emit (emit (emit st [g_objectDefTag]) (encode_string c)) (gencodeInt (swrap 32 (Z.of_nat (length names))))).
-  destruct (fold_emit_tables (map lower_name names) st3) as [T1 T2].
-  cbn [ecls erefs enm]. rewrite T1, T2, fold_emit_enm. split; [|repeat split].
-  transitivity (ebytes (fold_left (fun s f => emit s (encode_string f)) (map lower_name names) st3)); [reflexivity|].
-  rewrite ebytes_fold_emit. unfold st3. rewrite !ebytes_emit, <- !app_assoc. reflexivity.
-Qed.
-Lemma concat_len_ge names : Forall (Forall valid_rune) names -> (length names <= length (concat (map encode_string names)))%nat.
-Proof.
-  induction 1 as [|n ns V _ IH]; cbn [map concat length]; [lia|].
-  destruct (string_denotes n [] V) as (t & tl & E & _). rewrite app_length, E. cbn [length]. lia.
-Qed.
-Lemma lower_name_valid n : Forall valid_rune n -> Forall valid_rune (lower_name n).
-Proof.
-  intros H. unfold lower_name. destruct n as [|c r]; [constructor|]. inversion H as [|? ? Hc Hr]; subst.
-  destruct ((65 <=? c) && (c <=? 90)) eqn:E; [|exact H]. constructor; [|exact Hr]. unfold valid_rune, g_asciiGap. lia.
 Qed.
 
 (* ---- the header of an object: class definition (when new) and instance tag ---- *)
